@@ -88,7 +88,7 @@ def env_kind(kind: str) -> Any:
     if kind not in _ENV:
         import liquid2
 
-        _ENV[kind] = impl.make_env(shopify=True, undefined=getattr(liquid2, kind))
+        _ENV[kind] = impl.make_env(shopify=True, auto_escape=True) if kind == "auto_escape" else impl.make_env(shopify=True, undefined=getattr(liquid2, kind))
     return _ENV[kind]
 
 
@@ -523,6 +523,16 @@ def string_laws(s: str, out: V) -> None:
                     out.append(("escape_once-after-escape-is-escape", [text], e1[1], eoe))
             else:
                 out.append(("escape_once-raises", [text], "string", eo))
+        # the same laws as a TEMPLATE sees them when the environment escapes its output: what one application prints,
+        # two applications print, and it is what the filter prints in an environment that does not escape
+        for base in (text, "&amp;lt;" + text):
+            r0 = render("{{ s | escape_once }}", s=base)
+            r1 = render("{{ s | escape_once }}", "auto_escape", s=base)
+            r2 = render("{{ s | escape_once | escape_once }}", "auto_escape", s=base)
+            if r1[0] == "ok" and r2 != r1:
+                out.append(("escape_once-idempotent-under-auto_escape", [base], r1, r2))
+            if r0[0] == "ok" and r1[0] == "ok" and html.unescape(r0[1]) != html.unescape(r1[1]):
+                out.append(("escape_once-denotes-the-same-text-under-auto_escape", [base], r0, r1))
     # slice on strings
     for start, length in ((0, 1), (1, 2), (-2, 2), (-1, 5), (9, 1)):
         sl = call("slice", s, start, length)
